@@ -18,6 +18,8 @@
 #else
 void *malloc(size_t);
 void free(void *);
+void *memset(void *, int, size_t);
+void *memcpy(void *, const void *, size_t);
 #endif
 
 struct v_cfg g_cfg;
@@ -128,12 +130,9 @@ void *lltd_port_memset(void *ptr, int value, size_t num) {
         __CPROVER_array_set((uint8_t *)ptr, (uint8_t)value);
         return ptr;
     }
-    V_REQUIRE("model.memset: partial fill longer than 128 bytes is outside the model", num <= 128);
-    uint8_t *d = (uint8_t *)ptr;
-    for (size_t i = 0; i < 128; i++) {
-        if (i < num) d[i] = (uint8_t)value;
-    }
-    return ptr;
+    /* partial fill: CBMC's own memset (array_set on a temporary + array_replace), sizes are constants in the core */
+    V_REQUIRE("model.memset: partial fill longer than 1024 bytes is outside the model", num <= 1024);
+    return memset(ptr, value, num);
 #endif
 }
 
@@ -146,14 +145,12 @@ void *lltd_port_memcpy(void *destination, const void *source, size_t num) {
 #else
     uint8_t *d = (uint8_t *)destination;
     const uint8_t *s = (const uint8_t *)source;
-    if (num <= 32) {
-        for (size_t i = 0; i < 32; i++) {
-            if (i < num) d[i] = s[i];
-        }
+    if (num <= 64) {
+        memcpy(d, s, num);
     } else {
         /* long copy: bounds of both ranges are obligations; contents are havoc + one ghost byte */
-        V_REQUIRE("port.memcpy.src-readable", __CPROVER_r_ok(s, num));
-        V_REQUIRE("port.memcpy.dst-writable", __CPROVER_w_ok(d, num));
+        V_REQUIRE("C01.memcpy.src-readable: copy source inside its object", __CPROVER_r_ok(s, num));
+        V_REQUIRE("C01.memcpy.dst-writable: copy destination inside its object", __CPROVER_w_ok(d, num));
         __CPROVER_havoc_slice(d, num);
         if (g_k < num) d[g_k] = s[g_k];
     }
